@@ -274,6 +274,8 @@ pub enum PcStmt {
     Flt(&'static str, Option<u64>), // TEMP HUM PRES
     Il(Option<(Option<Val>, Option<Val>)>),
     Cl(Option<[Option<Val>; 6]>),
+    /// `PointCloudWriter::finalize` in the middle of the body: whatever follows meets a finalized writer
+    Fin,
 }
 
 #[derive(Clone, Debug, PartialEq)]
@@ -372,6 +374,7 @@ impl Program {
                             PcStmt::Flt(k, v) => t.extend([k.to_string(), opt_tok(v, |x| x.to_string())]),
                             PcStmt::Il(None) => t.push("ILN".into()),
                             PcStmt::Il(Some((a, b))) => t.extend(["IL".into(), opt_tok(a, |v| v.tok()), opt_tok(b, |v| v.tok())]),
+                            PcStmt::Fin => t.push("PFIN".into()),
                             PcStmt::Cl(None) => t.push("CLN".into()),
                             PcStmt::Cl(Some(l)) => {
                                 t.push("CL".into());
@@ -468,6 +471,10 @@ impl Program {
                                 end = false;
                                 i += 1;
                                 break;
+                            }
+                            "PFIN" => {
+                                body.push(PcStmt::Fin);
+                                i += 1;
                             }
                             "P" => {
                                 let k: usize = t[i + 1].parse().ok()?;
@@ -944,6 +951,15 @@ pub fn execute(prog: &Program, dev: &SimDev) -> Run {
                                         _ => pw.set_sensor_fw_version(v),
                                     }
                                     results.push("ok".into());
+                                }
+                                PcStmt::Fin => {
+                                    let r = guarded(|| pw.finalize());
+                                    results.push(res(&r).into());
+                                    if r.is_err() {
+                                        panicked = true;
+                                        std::mem::forget(pw);
+                                        break 'outer;
+                                    }
                                 }
                                 PcStmt::Og(v) => {
                                     pw.set_original_guids(v.clone());
